@@ -294,6 +294,14 @@ def run(check, an: Analysis):
     from . import c03
     c03._check_signal_lifecycles(check, an, wrapper, rule='K',
                                  only=lambda fn, cls: cls == CANCEL_TASK)
+    # a cancellation delivered at a suspension point unwinds what the task was subscribed
+    # to: every notification lets go of the pair it was given (a delivery left armed would
+    # later hit the finished task and end the whole run, siblings and parent included)
+    from ..report import SubCheck
+    c03._check_subscribe_protocol(SubCheck(check, 'K', 'Notification'), an)
+    # a child cancelled before its first turn is done at once but deregisters only in its
+    # first turn: the scope that waits for it must give it that turn
+    _scope.check_await_children_progress(check, an, 'K')
     # a cancellation thrown into a task that owns a scope leaves that scope as itself
     from . import c05, c04
     c05.check_own_exception_wins(check, an, 'K', [CANCEL_TASK])
